@@ -1,6 +1,7 @@
 import QuantemModel.Core.Proto
 import QuantemModel.Model.Origin
 import QuantemModel.Model.OriginState
+import QuantemModel.Model.OriginPrep
 open Lean QuantemModel QuantemModel.Proto QuantemModel.Origin
 
 namespace DrvC18
@@ -248,6 +249,21 @@ def step (st : Unit) (j : Json) : Unit × Json :=
             pure ((), okJson (Json.arr (out.map (fun o => match o with
               | some p => Json.arr (p.flatten.map ratToJson).toArray | none => Json.null)).toArray))
         | _ => throw "coord"
+    | "centre" =>
+        -- growth 6: the dataset model after its centre-of-mass stage (Model/OriginPrep.lean), amplitudes handed in
+        let h ← natField j "h"
+        let w ← natField j "w"
+        let data ← ratList (← field j "data")
+        let fits ← (← arrField j "fits").toList.mapM (fun p => do
+          match ← ratList p with
+          | [a, c] => pure (a, c)
+          | _ => throw "pair")
+        if h == 0 || w == 0 then throw "degenerate shape" else
+        let amps := toPatterns h w data
+        let out := centreAll h w fits amps
+        pure ((), okJson (Json.mkObj [
+          ("centred", Json.arr (out.map (fun p => Json.arr (p.flatten.map ratToJson).toArray)).toArray),
+          ("descan", Json.arr ((List.range amps.length).map (fun i => pairToJson (descanShift h w (fits.getD i (0, 0))))).toArray)]))
     | "om_history" =>
         let h ← natField j "h"
         let w ← natField j "w"
